@@ -21,7 +21,8 @@ RULE = ('programs from the concolic generator (all instruction families incl. bu
         'sides) recorded with ndarray or UTPM(D1,P1) inputs at probe point 0, then replayed 1..4 times with unrelated inputs '
         '(ndarray or UTPM with drawn D2,P2, base points = other probe points) through cg.function / cg.pushforward. '
         'Non-trivial = >= 3 instructions and at least one replay whose kind or (D,P) differs from the recording input; '
-        'distinct by descriptor hash')
+        'distinct by descriptor hash.  A replay may re-use the input containers of the previous one refilled in place, may be complex valued '
+        '(programs of entire functions / linear algebra / indexing), and the recording may happen while an older graph is still open')
 ASSUMPTIONS = [
     'direct execution of the same instruction list through the generic algopy API on the unwrapped operands is the reference',
     'values compared with tolerance 1e-13 relative to max(1,|ref|) (the two paths run the same kernels); shapes and UTPM-vs-plain kind exactly',
